@@ -84,6 +84,18 @@ def programs(tier):
     out.append(("pair-startlatest+priorities/assigned-weights-1:4", prog(3, [fixed("a", 1, priority=2), fixed("b", 1), worker("w"), req("a", "w"), req("b", "w"),
                                                                              new("ObjectiveTasksStartEarliest", "o1"), new("ObjectiveMinimizeGreatestStartTime", "o2"),
                                                                              dsl.setattr_("o2", "weight", 4)])))
+    # three objectives, two of them on the same indicator: their weights add up
+    ti1 = new("IndicatorFromMathExpression", "i1", name="i1", expression=E(["start", "a"]))
+    ti2 = new("IndicatorFromMathExpression", "i2", name="i2", expression=E(["-", 4, ["start", "a"]]))
+    out.append(("triple-min/shared-indicator", prog(4, [fixed("a", 1), ti1, ti2, new("Objective", "o1", name="first", target=R("i1"), weight=1, kind="minimize"),
+                                                        new("Objective", "o2", name="second", target=R("i2"), weight=3, kind="minimize"),
+                                                        new("Objective", "o3", name="third", target=R("i1"), weight=3, kind="minimize")])))
+    # an indicator bound used as an operand of a connective limits nothing by itself
+    for direction, bkw in (("Max", {"upper_bound": 2}), ("Min", {"lower_bound": 2})):
+        okw = {"weight": 1} if direction == "Min" else {}
+        out.append((f"{direction.lower()}-indicator/bounds-as-operand", prog(4, [fixed("a", 1), fixed("b", 1), new("IndicatorFromMathExpression", "i", name="i", expression=E(["start", "a"])),
+                    con("Or", "c", list_of_constraints=[{"$new": con("IndicatorBounds", "ib", indicator=R("i"), **bkw)}, E([">=", ["start", "b"], 1])]),
+                    new(f"Objective{direction}imizeIndicator", "o", target=R("i"), **okw)])))
     # a bounded indicator next to an unbounded one, in both declaration orders: the bound of one objective says nothing
     # about the weighted sum (here the sum passes through 0, the lower bound of i2, on its way down to -3)
     bi1 = new("IndicatorFromMathExpression", "i1", name="i1", expression=E(["-", ["start", "a"], 3]))
